@@ -81,9 +81,94 @@ def ins_corpus(tier, seed):
     return specs
 
 
+BALL_CFG = """SPECIFICATION Spec
+CONSTANTS
+  MaxD = {maxd}
+  N = {n}
+INVARIANT WellDefined
+INVARIANT Monotone
+INVARIANT EndPoints
+INVARIANT Export
+CHECK_DEADLOCK FALSE
+"""
+
+
+def latent_ball(v, scratch, tier, seed):
+    """spec -> code: the radial rule of LatentBall.tla replayed through the real draw_nsphere with the uniform
+    variates scripted (the direction is left to the real generator): a draw with u = k^D / N^D has radius
+    fuzz * r * k / N.  A different use of the random source is a model mismatch, not a verdict."""
+    import numpy as np
+
+    from .tlc import run_tlc, require_ok
+
+    cfg = scratch / "ball.cfg"
+    cfg.write_text(BALL_CFG.format(maxd=4 if tier == "quick" else 6, n=8 if tier == "quick" else 12))
+    res = run_tlc("LatentBall", str(cfg), metadir=scratch / "m_ball", workers=1, timeout=600, collect_prefix="BALL")
+    require_ok(res, "LatentBall.tla")
+    cases = {}
+    for c in res.printed:
+        cases.setdefault(int(c["d"]), []).append(c)
+    from nessai.utils import sampling
+
+    real_uniform = np.random.uniform
+    n_calls = n_cases = 0
+    unscripted = False
+    for d, cs in sorted(cases.items()):
+        cs.sort(key=lambda c: c["k"])
+        u = np.array([c["unum"] / c["uden"] for c in cs], dtype=float)
+        for r, fuzz in ((1.0, 1.0), (2.5, 1.0), (1.5, 2.0), (3.0, 1.3), (0.7, 0.5)):
+            used = {"n": 0}
+
+            def scripted(low=0.0, high=1.0, size=None):
+                shape = tuple(np.atleast_1d(size).astype(int).tolist()) if size is not None else ()
+                if (low, high) == (0, 1) and shape in ((len(u), 1), (len(u),)):
+                    used["n"] += 1
+                    return u.reshape(shape).copy()
+                return real_uniform(low, high, size)
+
+            np.random.uniform = scripted
+            try:
+                z = np.asarray(sampling.draw_nsphere(d, r=r, N=len(u), fuzz=fuzz), dtype=float)
+            except Exception as ex:  # noqa: BLE001
+                v.violation("latent_ball_raises", f"draw_nsphere(dims={d}, r={r}, N={len(u)}, fuzz={fuzz}) raised "
+                            f"{type(ex).__name__}: {ex}", {"d": d, "r": r, "fuzz": fuzz})
+                continue
+            finally:
+                np.random.uniform = real_uniform
+            n_calls += 1
+            if used["n"] != 1 or z.shape != (len(u), d):
+                unscripted = True
+                continue
+            rho = np.sqrt(np.sum(z * z, axis=1))
+            want = fuzz * r * np.array([c["radial"] / c["n"] for c in cs], dtype=float)
+            n_cases += len(cs)
+            bad = np.abs(rho - want) > 1e-9 * max(1.0, fuzz * r)
+            if np.any(bad):
+                i = int(np.flatnonzero(bad)[0])
+                v.violation("latent_ball_radial_rule",
+                            f"draw_nsphere(dims={d}, r={r}, fuzz={fuzz}): the uniform variate u = {cs[i]['unum']}/"
+                            f"{cs[i]['uden']} must give the radius enclosing that fraction of the ball of radius "
+                            f"fuzz*r = {fuzz * r}, i.e. {want[i]!r}; got {float(rho[i])!r} (candidates are not uniform "
+                            f"in the contour the proposal claims)",
+                            {"d": d, "r": r, "fuzz": fuzz, "u": u.tolist(), "radii": rho.tolist(), "want": want.tolist()})
+    if unscripted:
+        v.mismatch("draw_nsphere does not consume one vector of uniform variates per call as LatentBall.tla assumes")
+    # the flow proposal uses this function for the two ball priors
+    try:
+        from nessai.proposal.flowproposal import FlowProposal  # noqa: F401
+        import inspect
+
+        src = inspect.getsource(FlowProposal.configure_latent_prior)
+        if "draw_nsphere" not in src:
+            v.mismatch("FlowProposal.configure_latent_prior no longer refers to draw_nsphere")
+    except Exception:  # noqa: BLE001
+        pass
+    return {"latent_ball": {"spec_cases": len(res.printed), "real_calls": n_calls, "radii_compared": n_cases}}
+
+
 def main(tier: str) -> int:
     seed = seed_from_env()
-    return run_property(PROP, tier, corpus(tier, seed), ins_specs=ins_corpus(tier, seed),
+    return run_property(PROP, tier, corpus(tier, seed), ins_specs=ins_corpus(tier, seed), extra_checks=latent_ball,
                         note="Every population of every run: in bounds, prior finite and equal to the model's, "
                              "likelihood equal to the model's, pool size, each pool index handed out once, rejected "
                              "draws really unacceptable, likelihood never called outside the support. The "
